@@ -27,7 +27,6 @@ func newTagOracle() *tagOracle {
 		last: map[int][]string{}, prec: map[[2]int]bool{}}
 }
 
-
 // seqOf extracts the observed tag sequence of the tracked list/array.
 func seqOf(kind string, js string) ([]string, bool) {
 	var x interface{}
